@@ -3,6 +3,7 @@ import io, os, sys, subprocess, tempfile, shutil, json
 import gen, streams, grammar, oracles
 from common import *
 import sqlparse
+from sqlparse.exceptions import SQLParseError
 
 RULE = ('texts: corpus, grammar scripts, g2/g3 junk (no lone surrogates) x every listed encoding able to encode the text x {str, bytes+encoding, UTF-8 bytes, stream, stream handed over at a non-zero position, unseekable stream} '
         'x {parse, parsestream, split, format}; non-UTF-8 byte strings (random bytes and Latin-1 encoded text with backslashes) without encoding vs Latin-1 decoding; '
@@ -376,6 +377,60 @@ def cli_sweep(ctx, tmp):
         ctx.count('cli:parser-introspection-failed:' + type(e).__name__)
 
 
+FLAG_ATOMS = [['-r'], ['-a'], ['-s'], ['--strip-comments'], ['--indent_columns'], ['--indent_after_first'], ['-k', 'upper'], ['-i', 'lower'], ['-l', 'python'],
+              ['--indent_width', '4'], ['--wrap_after', '20'], ['--comma_first', 'True'], ['--compact', 'True']]
+
+
+def flag_subsets(ctx, tmp):
+    """every set of up to three option flags (quick; up to four thorough), in both orders for pairs: the command line, run in this process through
+    `sqlparse.cli.main` (file in, file out), must write exactly what format() returns for the corresponding options — or reject the options when
+    format() rejects them.  An option whose effect on the command line depends on which other flags accompany it shows up here."""
+    import itertools
+    from sqlparse import cli as _cli
+    inp = os.path.join(tmp, 'sub_in.sql')
+    outp = os.path.join(tmp, 'sub_out.sql')
+    text = CLI_RICH
+    with open(inp, 'w', encoding='utf-8', newline='') as f:
+        f.write(text)
+    combos = []
+    for k in range(1, ctx.n(3, 4) + 1):
+        for c in itertools.combinations(range(len(FLAG_ATOMS)), k):
+            combos.append(c)
+            if k == 2:
+                combos.append(c[::-1])
+    for c in combos:
+        flags = [x for i in c for x in FLAG_ATOMS[i]]
+        opts = flags_to_opts(flags)
+        try:
+            want = sqlparse.format(text, **dict(opts))
+        except SQLParseError:
+            want = None
+        if os.path.exists(outp):
+            os.unlink(outp)
+        err = io.StringIO()
+        old = sys.stderr
+        sys.stderr = err
+        try:
+            try:
+                rc = _cli.main([inp] + flags + ['--encoding', 'utf-8', '-o', outp])
+            except SystemExit as e:
+                rc = e.code
+        finally:
+            sys.stderr = old
+        ctx.evaluations += 1
+        ctx.count('cli:flag-subset:%d' % len(c))
+        ctx.nontrivial.add(('flag-subset', tuple(flags)))
+        if want is None:
+            ctx.count('cli:flag-subset:rejected')
+            if rc in (0, None):
+                ctx.fail('sqlformat accepts options that format() rejects', text, observed='status %r' % rc, required='non-zero status', flags=flags, encoding='utf-8', channel='in-process file->outfile')
+            continue
+        got = open(outp, encoding='utf-8', newline='').read() if os.path.exists(outp) else None
+        if rc not in (0, None) or got != want:
+            ctx.fail('sqlformat output differs from format()', text, observed=('status %r: ' % rc) + (got or err.getvalue())[:300], required=want[:300], flags=flags, encoding='utf-8',
+                     channel='in-process file->outfile')
+
+
 def texts(ctx, n):
     rng = ctx.rng
     g = grammar.Gen(rng)
@@ -430,6 +485,7 @@ def run(ctx):
                 oracle_cli(ctx, tmp, s, enc, rng.choice(CLI_FLAGS), False, True, inplace=rng.choice(['same', 'symlink']))
         oracle_cli(ctx, tmp, "select 'é' from t where x=1; select 2", 'latin-1', ['-r', '-k', 'upper'], True, True)
         cli_sweep(ctx, tmp)
+        flag_subsets(ctx, tmp)
         oracle_cli(ctx, tmp, "select 'é', b from t where x=1; select 2", 'utf-8', ['-r'], False, True, inplace='same')
         oracle_cli(ctx, tmp, "select a from t -- é\n; select 2", 'latin-1', ['-k', 'upper'], False, True, inplace='symlink')
     finally:
